@@ -228,7 +228,25 @@ def case_coq(h, later):
         # series that the WAL replay brought back become searchable at an unknown moment during these reads: their
         # measurement is left to the direct oracle alone in this phase
         replayed = bool(phase_labels(h, "after-crash") & {"d3", "d4"})
+        d5 = h.get("drop5")
+        if d5 and d5["kind"] != "measurement":             # DROP DATABASE / POLICY right before the first kill
+            for m in h["msts"]:
+                ops.append("KDropMeasurement %d" % it.str(m))
         reads(steps["after-crash"], skip_mst=late_mst if replayed else None)
+        if d5 and d5["kind"] != "measurement":
+            writes(h.get("w6") or [])
+            if "after-recreate" in steps:
+                reads(steps["after-recreate"])
+        if d5 and d5["kind"] == "measurement":             # DROP MEASUREMENT right before the second kill
+            ops.append("KDropMeasurement %d" % it.str(d5["mst"]))
+        if d5 and "after-recreate-restart" in steps:
+            # (the series that the WAL replay brought back before are gone with the measurement; other measurements of the history
+            # may still show them: left to the oracle as in the phase before)
+            reads(steps["after-recreate-restart"], skip_mst=late_mst if replayed and d5["kind"] != "measurement" else None)
+        if d5 and d5["kind"] == "measurement":
+            writes(h.get("w6") or [])
+            if "after-recreate-measurement" in steps:
+                reads(steps["after-recreate-measurement"], skip_mst=late_mst if replayed and late_mst != d5["mst"] else None)
     host = it.str("host")
     am = ["(%d, %d)" % (P_OR, it.str("a")), "(%d, %d)" % (P_OR, it.str("b")), "(%d, %d)" % (P_LIT, it.str("a")),
           "(%d, %d)" % (P_RXY, it.str("x")), "(%d, %d)" % (P_RXY, it.str("y")), "(%d, %d)" % (P_RX, it.str("x"))]
@@ -330,8 +348,30 @@ def tree_case(h):
     if "after-crash" in steps:
         if h.get("drop2"):
             ops.append(drop_op(h["drop2"]))
+        d5 = h.get("drop5")
+        cat5 = d5 and d5["kind"] != "measurement"
+        if cat5:
+            ops.append(drop_op(d5))
         ops.append("TOp (TRestart %d %d)" % (d, rp))
         reads(steps["after-crash"])
+        if cat5:
+            if d5["kind"] == "db":
+                ops += ["TOp (TCreateDB %d)" % d, "TOp (TCreateRP %d %d)" % (d, rp)]
+            else:
+                ops.append("TOp (TCreateRP %d %d)" % (d, rp))
+            writes(h.get("w6"))
+            if "after-recreate" in steps:
+                reads(steps["after-recreate"])
+        if d5:
+            if not cat5:
+                ops.append(drop_op(d5))
+            ops.append("TOp (TRestart %d %d)" % (d, rp))
+            if "after-recreate-restart" in steps:
+                reads(steps["after-recreate-restart"])
+            if not cat5:
+                writes(h.get("w6"))
+                if "after-recreate-measurement" in steps:
+                    reads(steps["after-recreate-measurement"])
     am = ["(%d, %d)" % (P_OR, it.str("a")), "(%d, %d)" % (P_OR, it.str("b")), "(%d, %d)" % (P_LIT, it.str("a"))]
     return "(%s, %s)" % (coq_list(am), coq_list(ops)), nreads[0]
 
@@ -405,7 +445,7 @@ def main(ck):
                               "mirroring isDeleted's byte positions), python driver props/C13/run.py (signatures of the open findings)",
                               "the HTTP/JSON surface of ts-server; repository hooks verif_export_c13.go (read-only dumps)"]
     ck.coq_audit(["C13", "C10"])
-    ok = ck.coq_build(["C13/Proofs.vo", "C13/TreeProofs.vo", "C13/Wiring.vo", "C13/Purge.vo", "C13/Corr.vo", "C13/TreeCorr.vo", "C13/PurgeCorr.vo", "C13/Props.vo", "C13/Refuted.vo"])
+    ok = ck.coq_build(["C13/Proofs.vo", "C13/TreeProofs.vo", "C13/Wiring.vo", "C13/Purge.vo", "C13/Phases.vo", "C13/Corr.vo", "C13/TreeCorr.vo", "C13/PurgeCorr.vo", "C13/Props.vo", "C13/Refuted.vo"])
     if ok:
         ck.coq_props(["C13/Props.v", "C13/Refuted.v"])
     binp = ck.go_build("./cmd/c13", "c13")
